@@ -1,3 +1,642 @@
 package main
 
-func cmdCheck(args []string) {}
+import (
+	"encoding/json"
+	"flag"
+	"fmt"
+	"os"
+	"os/exec"
+	"path/filepath"
+	"regexp"
+	"sort"
+	"strings"
+	"sync"
+	"time"
+)
+
+const verifRoot = "/verif"
+
+type Canary struct {
+	Name   string   `json:"name"`
+	File   string   `json:"file"`
+	Old    string   `json:"old"`
+	New    string   `json:"new"`
+	Expect []string `json:"expect"` // obligation names, at least one of which must fail
+	Thorough bool   `json:"thorough_only,omitempty"`
+}
+
+type PropConfig struct {
+	ID          string   `json:"id"`
+	Packages    []string `json:"packages"`
+	Functions   []string `json:"functions"`
+	Stretch     []string `json:"stretch,omitempty"`   // obligation names reported but never counted
+	Canaries    []Canary `json:"canaries,omitempty"`
+	NotDecided  []string `json:"not_decided,omitempty"`
+	Assumptions []string `json:"assumptions,omitempty"`
+	Bounded     []string `json:"bounded,omitempty"`
+}
+
+type KnownFinding struct {
+	Property   string `json:"property"`
+	Obligation string `json:"obligation"`
+	Status     string `json:"status"` // open | fixed
+	What       string `json:"what"`
+	Commit     string `json:"commit,omitempty"`
+}
+
+type OblSummary struct {
+	Name      string
+	Kind      string
+	Src       string
+	Instances int
+	Unsat     int
+	Status    string // discharged | failed | vacuous | covered | missing
+	Solver    map[string]int
+	Seconds   float64
+	Worst     *Obligation
+}
+
+type RunResult struct {
+	Summaries  []*OblSummary
+	ByName     map[string]*OblSummary
+	Funcs      []*FuncResult
+	BuildError string
+	Wall       float64
+}
+
+func loadProp(id string) (*PropConfig, error) {
+	data, err := os.ReadFile(filepath.Join(verifRoot, "props", id+".json"))
+	if err != nil {
+		return nil, err
+	}
+	var pc PropConfig
+	if err := json.Unmarshal(data, &pc); err != nil {
+		return nil, err
+	}
+	return &pc, nil
+}
+
+// runProperty generates and discharges all obligations of the property's functions.
+func runProperty(pc *PropConfig, overlay map[string][]byte, timeoutS int, wantModel bool, only map[string]bool) *RunResult {
+	t0 := time.Now()
+	rr := &RunResult{ByName: map[string]*OblSummary{}}
+	eng, err := LoadEngine("/repo", pc.Packages, overlay)
+	if err != nil {
+		rr.BuildError = err.Error()
+		return rr
+	}
+	want := map[string]bool{}
+	for _, f := range pc.Functions {
+		want[f] = true
+	}
+	var fcs []*FuncContract
+	found := map[string]bool{}
+	for _, fc := range eng.cs.Funcs {
+		if fc.Extern {
+			continue
+		}
+		key := pkgShort(fc.PkgPath) + "." + fc.Key
+		if want[key] && (only == nil || only[key]) {
+			fcs = append(fcs, fc)
+			found[key] = true
+		}
+	}
+	sort.Slice(fcs, func(i, j int) bool { return fcs[i].PkgPath+fcs[i].Key < fcs[j].PkgPath+fcs[j].Key })
+	var all []*Obligation
+	for _, fc := range fcs {
+		r := eng.VerifyFunction(fc)
+		rr.Funcs = append(rr.Funcs, r)
+		all = append(all, r.Obls...)
+	}
+	for _, f := range pc.Functions {
+		if !found[f] && (only == nil || only[f]) {
+			rr.Funcs = append(rr.Funcs, &FuncResult{Key: f, Aborted: "no contract found for " + f + " (contract file missing or key changed)"})
+		}
+	}
+	// cover probes get a short budget: "unknown" is as good as "sat" for them
+	var covers, rest []*Obligation
+	for _, ob := range all {
+		if ob.Kind == "cover" {
+			covers = append(covers, ob)
+		} else {
+			rest = append(rest, ob)
+		}
+	}
+	var wg sync.WaitGroup
+	wg.Add(1)
+	go func() { defer wg.Done(); solveAll(covers, 3, 4, false) }()
+	solveAll(rest, timeoutS, 12, wantModel)
+	wg.Wait()
+	if wantModel {
+		done := 0
+		for _, ob := range rest {
+			if ob.Status == "sat" && ob.Model != "" && done < 3 && scalarFunc(ob.Fn) {
+				eng.replayScalar(ob)
+				done++
+			}
+		}
+	}
+	for _, r := range rr.Funcs {
+		for _, ob := range r.Obls {
+			s := rr.ByName[ob.Name]
+			if s == nil {
+				s = &OblSummary{Name: ob.Name, Kind: ob.Kind, Src: ob.Src, Solver: map[string]int{}}
+				rr.ByName[ob.Name] = s
+				rr.Summaries = append(rr.Summaries, s)
+			}
+			s.Instances++
+			s.Seconds += ob.Seconds
+			s.Solver[ob.Solver]++
+			if ob.Status == "unsat" {
+				s.Unsat++
+			} else if s.Worst == nil || (ob.ReplayConfirmed && !s.Worst.ReplayConfirmed) || (ob.Status == "sat" && s.Worst.Status != "sat") {
+				s.Worst = ob
+			}
+		}
+	}
+	for _, s := range rr.Summaries {
+		switch {
+		case s.Kind == "cover" && s.Unsat > 0:
+			s.Status = "vacuous"
+		case s.Kind == "cover":
+			s.Status = "covered"
+		case s.Unsat == s.Instances:
+			s.Status = "discharged"
+		default:
+			s.Status = "failed"
+		}
+	}
+	rr.Wall = time.Since(t0).Seconds()
+	return rr
+}
+
+func readKnown() []KnownFinding {
+	var k []KnownFinding
+	data, err := os.ReadFile(filepath.Join(verifRoot, "known_findings.json"))
+	if err == nil {
+		_ = json.Unmarshal(data, &k)
+	}
+	return k
+}
+
+var nameSan = regexp.MustCompile(`[^A-Za-z0-9_.-]+`)
+
+type Failure struct {
+	Name   string
+	Reason string
+	Sum    *OblSummary
+}
+
+func cmdCheck(args []string) {
+	if len(args) < 1 {
+		fmt.Fprintln(os.Stderr, "usage: govc check <id> [--thorough] [--record] [--replay path] [--mutant i]")
+		os.Exit(2)
+	}
+	id := args[0]
+	fs := flag.NewFlagSet("check", flag.ExitOnError)
+	thorough := fs.Bool("thorough", false, "thorough tier")
+	record := fs.Bool("record", false, "record the expected obligation set")
+	replay := fs.String("replay", "", "replay file")
+	mutant := fs.Int("mutant", -1, "internal: run canary i and report which obligations fail")
+	nocanary := fs.Bool("nocanary", false, "skip canaries")
+	fs.Parse(args[1:])
+	if os.Getenv("VERIF_TIER") == "thorough" {
+		*thorough = true
+	}
+	pc, err := loadProp(id)
+	if err != nil {
+		fmt.Fprintln(os.Stderr, "cannot load property config:", err)
+		os.Exit(2)
+	}
+	timeout := 10
+	if *thorough {
+		timeout = 60
+	}
+	if *mutant >= 0 {
+		runCanaryChild(pc, *mutant, timeout)
+		return
+	}
+	if *replay != "" {
+		doReplay(pc, *replay, timeout)
+		return
+	}
+	t0 := time.Now()
+	tier := "quick"
+	if *thorough {
+		tier = "thorough"
+	}
+	rr := runProperty(pc, nil, timeout, true, nil)
+	if rr.BuildError != "" {
+		fmt.Println("BUILD-ERROR:", rr.BuildError)
+		writeEvidence(pc, tier, rr, nil, nil, nil, time.Since(t0).Seconds(), []string{"build error: no verdict"})
+		os.Exit(2)
+	}
+	expPath := filepath.Join(verifRoot, "obligations", id+".json")
+	if *record {
+		var names []string
+		for _, s := range rr.Summaries {
+			if s.Status == "discharged" || s.Status == "covered" {
+				names = append(names, s.Name)
+			}
+		}
+		sort.Strings(names)
+		data, _ := json.MarshalIndent(names, "", " ")
+		os.MkdirAll(filepath.Dir(expPath), 0o755)
+		os.WriteFile(expPath, data, 0o644)
+		fmt.Printf("recorded %d obligation names in %s\n", len(names), expPath)
+	}
+	var expected []string
+	if data, err := os.ReadFile(expPath); err == nil {
+		_ = json.Unmarshal(data, &expected)
+	}
+	stretch := map[string]bool{}
+	for _, s := range pc.Stretch {
+		stretch[s] = true
+	}
+	// failures
+	var fails []*Failure
+	seenFail := map[string]bool{}
+	addFail := func(name, reason string, s *OblSummary) {
+		if seenFail[name] || stretch[name] {
+			return
+		}
+		seenFail[name] = true
+		fails = append(fails, &Failure{name, reason, s})
+	}
+	for _, r := range rr.Funcs {
+		if r.Aborted != "" {
+			addFail(r.Key+"#verify", "function could not be verified: "+r.Aborted, nil)
+		}
+		for _, be := range r.BindErrors {
+			addFail(r.Key+"#bind", "contract no longer binds to the code: "+be, nil)
+		}
+	}
+	for _, s := range rr.Summaries {
+		switch s.Status {
+		case "failed":
+			addFail(s.Name, "obligation not discharged", s)
+		case "vacuous":
+			addFail(s.Name, "preconditions/axioms are contradictory (vacuous proof)", s)
+		}
+	}
+	for _, n := range expected {
+		if _, ok := rr.ByName[n]; !ok {
+			fn := strings.SplitN(n, "#", 2)[0]
+			if seenFail[fn+"#verify"] {
+				continue
+			}
+			addFail(n, "expected obligation is no longer generated (code or contract shape changed)", nil)
+		}
+	}
+	// canaries
+	var canRun, canOK int
+	var canNotes []string
+	if !*nocanary && len(fails) == 0 {
+		canRun, canOK, canNotes = runCanaries(pc, *thorough)
+	}
+	// classify against known findings
+	known := readKnown()
+	var violations []*Failure
+	var knownLines []string
+	for _, f := range fails {
+		matched := false
+		for _, k := range known {
+			if k.Property == id && k.Status == "open" && k.Obligation == f.Name {
+				knownLines = append(knownLines, fmt.Sprintf("KNOWN-FINDING: property=%s %s (%s)", id, k.What, k.Obligation))
+				matched = true
+			}
+		}
+		if !matched {
+			violations = append(violations, f)
+		}
+	}
+	for _, l := range knownLines {
+		fmt.Println(l)
+	}
+	exit := 0
+	replayDir := filepath.Join(verifRoot, "replays", id)
+	for _, v := range violations {
+		os.MkdirAll(replayDir, 0o755)
+		path := filepath.Join(replayDir, nameSan.ReplaceAllString(v.Name, "_")+".json")
+		suffix := writeReplay(pc, path, v)
+		fmt.Printf("VIOLATION property=%s replay=%s%s\n", id, path, suffix)
+		fmt.Printf("  obligation %s: %s\n", v.Name, v.Reason)
+		exit = 1
+	}
+	selftestBroken := canRun > 0 && canOK < canRun
+	var extra []string
+	extra = append(extra, canNotes...)
+	writeEvidence(pc, tier, rr, fails, violations, &canaryStats{canRun, canOK}, time.Since(t0).Seconds(), extra)
+	// summary
+	nObl, nDis := 0, 0
+	for _, s := range rr.Summaries {
+		if s.Kind == "cover" || stretch[s.Name] {
+			continue
+		}
+		nObl += s.Instances
+		nDis += s.Unsat
+	}
+	fmt.Printf("%s %s: %d functions, %d obligation instances, %d discharged, %d canaries (%d failed as expected), %.1fs\n", id, tier, len(rr.Funcs), nObl, nDis, canRun, canOK, time.Since(t0).Seconds())
+	if exit == 0 && selftestBroken {
+		fmt.Println("ENGINE-SELFTEST-FAILED: a must-fail canary was not detected; see evidence")
+		for _, n := range canNotes {
+			fmt.Println("  ", n)
+		}
+		os.Exit(3)
+	}
+	os.Exit(exit)
+}
+
+type canaryStats struct{ run, ok int }
+
+// runCanaries applies each must-fail mutation in a child process and checks that a named obligation fails.
+func runCanaries(pc *PropConfig, thorough bool) (run, ok int, notes []string) {
+	type res struct {
+		i    int
+		out  string
+		code int
+	}
+	var idxs []int
+	for i, c := range pc.Canaries {
+		if c.Thorough && !thorough {
+			continue
+		}
+		idxs = append(idxs, i)
+	}
+	ch := make(chan res, len(idxs))
+	sem := make(chan bool, 4)
+	self, _ := os.Executable()
+	for _, i := range idxs {
+		i := i
+		go func() {
+			sem <- true
+			defer func() { <-sem }()
+			cmd := exec.Command(self, "check", pc.ID, "--mutant", fmt.Sprint(i))
+			out, err := cmd.CombinedOutput()
+			code := 0
+			if err != nil {
+				code = 1
+				if ee, ok := err.(*exec.ExitError); ok {
+					code = ee.ExitCode()
+				}
+			}
+			ch <- res{i, string(out), code}
+		}()
+	}
+	for range idxs {
+		r := <-ch
+		c := pc.Canaries[r.i]
+		switch r.code {
+		case 10: // detected
+			run++
+			ok++
+		case 11: // pattern does not apply to the current tree: skipped
+			notes = append(notes, fmt.Sprintf("canary %q skipped: pattern not found in current %s", c.Name, c.File))
+		default:
+			run++
+			notes = append(notes, fmt.Sprintf("canary %q NOT detected (exit %d): %s", c.Name, r.code, lastLines(r.out, 3)))
+		}
+	}
+	return
+}
+
+func lastLines(s string, n int) string {
+	ls := strings.Split(strings.TrimSpace(s), "\n")
+	if len(ls) > n {
+		ls = ls[len(ls)-n:]
+	}
+	return strings.Join(ls, " | ")
+}
+
+func runCanaryChild(pc *PropConfig, i int, timeout int) {
+	c := pc.Canaries[i]
+	path := filepath.Join("/repo", c.File)
+	data, err := os.ReadFile(path)
+	if err != nil || strings.Count(string(data), c.Old) != 1 {
+		fmt.Println("pattern not applicable")
+		os.Exit(11)
+	}
+	overlay := map[string][]byte{path: []byte(strings.Replace(string(data), c.Old, c.New, 1))}
+	only := map[string]bool{}
+	for _, e := range c.Expect {
+		only[strings.SplitN(e, "#", 2)[0]] = true
+	}
+	rr := runProperty(pc, overlay, timeout, false, only)
+	if rr.BuildError != "" {
+		fmt.Println("mutant does not build:", rr.BuildError)
+		os.Exit(12)
+	}
+	for _, e := range c.Expect {
+		if s, ok := rr.ByName[e]; ok && s.Status == "failed" {
+			fmt.Println("detected:", e)
+			os.Exit(10)
+		}
+		// a function that can no longer be verified at all also counts as detection
+		for _, r := range rr.Funcs {
+			if strings.HasPrefix(e, r.Key+"#") && (r.Aborted != "" || len(r.BindErrors) > 0) {
+				fmt.Println("detected (unverifiable):", e)
+				os.Exit(10)
+			}
+		}
+	}
+	fmt.Println("not detected")
+	os.Exit(13)
+}
+
+// ---------- replay files ----------
+
+type ReplayFile struct {
+	Property    string   `json:"property"`
+	Obligation  string   `json:"obligation"`
+	Reason      string   `json:"reason"`
+	Clause      string   `json:"contract_clause,omitempty"`
+	Function    string   `json:"function,omitempty"`
+	Instances   int      `json:"instances,omitempty"`
+	Undischarged int     `json:"undischarged_instances,omitempty"`
+	SolverStatus string  `json:"solver_status,omitempty"`
+	Solver      string   `json:"solver,omitempty"`
+	SolverOutput string  `json:"solver_output,omitempty"`
+	PathTrace   string   `json:"path_trace,omitempty"`
+	Model       string   `json:"model,omitempty"`
+	Inputs      map[string]string `json:"inputs,omitempty"`
+	ReplayKind  string   `json:"replay_kind"`
+	ReplayTranscript string `json:"replay_transcript,omitempty"`
+	FailingInputFound bool `json:"failing_input_found"`
+	Script      string   `json:"smt_script,omitempty"`
+}
+
+func writeReplay(pc *PropConfig, path string, f *Failure) string {
+	rf := &ReplayFile{Property: pc.ID, Obligation: f.Name, Reason: f.Reason, ReplayKind: "none"}
+	if f.Sum != nil {
+		rf.Clause = f.Sum.Src
+		rf.Function = strings.SplitN(f.Name, "#", 2)[0]
+		rf.Instances = f.Sum.Instances
+		rf.Undischarged = f.Sum.Instances - f.Sum.Unsat
+		if w := f.Sum.Worst; w != nil {
+			rf.SolverStatus, rf.Solver, rf.SolverOutput, rf.PathTrace, rf.Model = w.Status, w.Solver, w.Output, w.Trace, w.Model
+			rf.Script = w.Script
+			if len(rf.Script) > 300000 {
+				rf.Script = rf.Script[:300000] + "\n; …truncated"
+			}
+			if w.Status == "sat" && w.Model != "" {
+				tryScalarReplay(rf, w)
+			}
+		}
+	}
+	data, _ := json.MarshalIndent(rf, "", " ")
+	os.WriteFile(path, data, 0o644)
+	if rf.FailingInputFound {
+		return ""
+	}
+	return " no-failing-input-found"
+}
+
+func doReplay(pc *PropConfig, path string, timeout int) {
+	data, err := os.ReadFile(path)
+	if err != nil {
+		fmt.Fprintln(os.Stderr, err)
+		os.Exit(2)
+	}
+	var rf ReplayFile
+	if err := json.Unmarshal(data, &rf); err != nil {
+		fmt.Fprintln(os.Stderr, err)
+		os.Exit(2)
+	}
+	fn := strings.SplitN(rf.Obligation, "#", 2)[0]
+	rr := runProperty(pc, nil, timeout, true, map[string]bool{fn: true})
+	if rr.BuildError != "" {
+		fmt.Println("BUILD-ERROR:", rr.BuildError)
+		os.Exit(2)
+	}
+	s, ok := rr.ByName[rf.Obligation]
+	if ok && s.Status == "discharged" {
+		fmt.Printf("replay: obligation %s is discharged on the current tree\n", rf.Obligation)
+		os.Exit(0)
+	}
+	f := &Failure{Name: rf.Obligation, Reason: "obligation not discharged", Sum: s}
+	if !ok {
+		f.Reason = "obligation not generated on the current tree"
+	}
+	suffix := writeReplay(pc, path, f)
+	fmt.Printf("VIOLATION property=%s replay=%s%s\n", pc.ID, path, suffix)
+	os.Exit(1)
+}
+
+// ---------- evidence ----------
+
+func writeEvidence(pc *PropConfig, tier string, rr *RunResult, fails, violations []*Failure, cs *canaryStats, wall float64, extra []string) {
+	stretch := map[string]bool{}
+	for _, s := range pc.Stretch {
+		stretch[s] = true
+	}
+	nObl, nDis := 0, 0
+	byBackend := map[string]int{}
+	var solverS float64
+	var samples []map[string]interface{}
+	var funcs []string
+	var outOfReach []string
+	stretchStatus := map[string]string{}
+	assumed := map[string]bool{}
+	notes := map[string]bool{}
+	covers := 0
+	for _, r := range rr.Funcs {
+		funcs = append(funcs, fmt.Sprintf("%s (%d paths)", r.Key, r.Paths))
+		if r.Aborted != "" {
+			outOfReach = append(outOfReach, r.Key+": "+r.Aborted)
+		}
+		for _, a := range r.Assumed {
+			assumed[a] = true
+		}
+		for _, n := range r.Notes {
+			notes[n] = true
+		}
+	}
+	for _, s := range rr.Summaries {
+		if s.Kind == "cover" {
+			covers++
+			continue
+		}
+		if stretch[s.Name] {
+			stretchStatus[s.Name] = s.Status
+			continue
+		}
+		nObl += s.Instances
+		nDis += s.Unsat
+		solverS += s.Seconds
+		for k, v := range s.Solver {
+			byBackend[k] += v
+		}
+		if len(samples) < 12 {
+			samples = append(samples, map[string]interface{}{"obligation": s.Name, "clause": s.Src, "instances": s.Instances, "status": s.Status})
+		}
+	}
+	trusted := []string{
+		"the VC generator /verif/govc and its Go semantics (DESIGN.md §1.3): SSA symbolic execution, Boogie-style heap, content-id byte strings",
+		"golang.org/x/tools go/ssa lowering (NaiveForm) and go/types",
+		"SMT solvers z3 5.1 (z3-new), z3 4.8.12, cvc5 1.0.3",
+		"signed machine arithmetic treated as mathematical except in functions marked `checks ovf`; unsigned arithmetic and integer conversions are exact",
+		"calls without contract: computed write set havocked, result unconstrained; listed per function under model_notes",
+		"goroutines, channels beyond arrival-order havoc, OS, cryptographic hardness: not modelled",
+	}
+	var assumptions []string
+	for a := range assumed {
+		assumptions = append(assumptions, "axiom/assumed: "+a)
+	}
+	assumptions = append(assumptions, pc.Assumptions...)
+	for _, nd := range pc.NotDecided {
+		assumptions = append(assumptions, "not decided by this check: "+nd)
+	}
+	sort.Strings(assumptions)
+	var noteList []string
+	for n := range notes {
+		noteList = append(noteList, n)
+	}
+	sort.Strings(noteList)
+	if len(noteList) > 60 {
+		noteList = append(noteList[:60], fmt.Sprintf("… %d more", len(noteList)-60))
+	}
+	cov := map[string]interface{}{
+		"obligations":              nObl,
+		"discharged":               nDis,
+		"checker_cmd":              fmt.Sprintf("/verif/check %s%s", pc.ID, map[string]string{"quick": "", "thorough": " --thorough"}[tier]),
+		"trusted_base":             trusted,
+		"functions_under_contract": funcs,
+		"by_backend":               byBackend,
+		"solver_s":                 solverS,
+		"samples":                  samples,
+		"out_of_reach":             outOfReach,
+		"stretch_lemmas":           stretchStatus,
+		"bounded_standins":         pc.Bounded,
+		"vacuity_probes":           covers,
+		"model_notes":              noteList,
+		"notes":                    extra,
+	}
+	if cs != nil {
+		cov["canaries_run"] = cs.run
+		cov["canaries_failed_as_expected"] = cs.ok
+	}
+	if rr.BuildError != "" {
+		cov["obligations"], cov["discharged"] = 0, 0
+		cov["explanation"] = "build error: " + rr.BuildError
+	}
+	var failNames []string
+	for _, f := range fails {
+		failNames = append(failNames, f.Name+": "+f.Reason)
+	}
+	cov["undischarged"] = failNames
+	seed := 0
+	fmt.Sscanf(os.Getenv("VERIF_SEED"), "%d", &seed)
+	ev := map[string]interface{}{
+		"property_id": pc.ID,
+		"tier":        tier,
+		"seed":        seed,
+		"level":       "proof",
+		"coverage":    cov,
+		"assumptions": assumptions,
+		"wall_s":      wall,
+		"violations":  len(violations),
+	}
+	data, _ := json.MarshalIndent(ev, "", " ")
+	os.MkdirAll(filepath.Join(verifRoot, "evidence"), 0o755)
+	os.WriteFile(filepath.Join(verifRoot, "evidence", pc.ID+".json"), data, 0o644)
+}
